@@ -1840,7 +1840,7 @@ class SpaceUpdater(SharedSpaceOperations):
             nodes_removed.append(child)
             self._remove_hook(self._graph, child)
 
-        for _, v in nx.edge_bfs(self.manager._graph, node):
+        for _, v in nx.edge_bfs(self.manager._graph, nodes_removed):
             if v in nodes_removed:  # Sub space in the removed tree
                 continue
             self._instructions.append(
